@@ -24,7 +24,8 @@ ASSUMPTIONS = [
 BUDGET = {"quick": 85, "thorough": 900}
 FLOORS = {"reversals": {"quick": 250, "thorough": 2500}, "determinants": {"quick": 120, "thorough": 1200}, "order_fits": {"quick": 25, "thorough": 250},
           "hastings_terms": {"quick": 120, "thorough": 1200}, "nan_region_steps": 8, "retried_then_succeeded": {"quick": 8, "thorough": 40}, "chained_reversals": {"quick": 20, "thorough": 200}, "same_start_after_target_change": {"quick": 20, "thorough": 200}, "adapted_mass_matrices": {"quick": 20, "thorough": 200},
-          "low_divergence_threshold_operators": {"quick": 20, "thorough": 200}, "targets": 6}
+          "low_divergence_threshold_operators": {"quick": 20, "thorough": 200}, "reassigned_small_mass_matrices": {"quick": 20, "thorough": 200},
+          "single_precision_hastings_terms": {"quick": 20, "thorough": 200}, "targets": 6}
 
 TARGETS = ["gaussian", "correlated", "gamma-exp", "beta-sigmoid", "hierarchical", "phylo-unrooted", "phylo-time-ratio"]
 IDENT = ["reversal", "reversal", "volume", "order", "hastings", "hastings"]
@@ -41,6 +42,10 @@ def cases(tier, seed):
             ident = "reversal"
         out.append({"target": t, "identity": ident, "seed": int(rng.integers(2**31)), "d": int(rng.integers(1, 9)), "split": int(rng.integers(1, 4)),
                     "eps": float(gm.loguniform(rng, 1e-3, 0.5)), "L": int(rng.integers(1, 31)), "mass": str(rng.choice(["diag", "dense", "identity"])), "late_step_size": bool(i % 2), "restored_mass": bool(i % 3 == 0)})
+    # single precision on a target whose log density is of the order of -2e6 (a large fixed data set): the Hastings term is the change in kinetic
+    # energy of the momenta, to single precision of *that*, not of the Hamiltonian
+    for i in range(12 if tier == "quick" else 100):
+        out.append({"target": "single-precision", "identity": "hastings32", "seed": int(rng.integers(2**31)), "d": int(rng.integers(1, 6)), "split": 1, "eps": 0.11, "L": int(rng.integers(1, 8)), "mass": "identity"})
     for i in range(24 if tier == "quick" else 120):
         out.append({"target": "nan-region", "identity": "nan", "seed": int(rng.integers(2**31)), "d": 2, "split": 1, "eps": 0.3, "L": 5, "mass": "identity"})
     return out
@@ -122,6 +127,8 @@ def run_case(case):
     rng = np.random.default_rng(case["seed"])
     if case["identity"] == "nan":
         return run_nan(case, rng, V, C)
+    if case["identity"] == "hastings32":
+        return run_hastings32(case, rng, V, C)
     spec, jid, pids, curv = build_target(case, rng)
     objs, dic = tt.load(spec)
     joint = dic[jid]
@@ -299,6 +306,15 @@ def run_hastings(case, dic, joint, params, pids, M, eps, L, V, C, detail):
         kw["divergence_threshold"] = 1e-9  # documented option: energy errors above it are *reported*; the move is still a proposal
         C["low_divergence_threshold_operators"] = C.get("low_divergence_threshold_operators", 0) + 1
     op = HMCOperator("hmc", joint, params, integ, mm, disable_adaptation=True, **kw)
+    if case["seed"] % 4 == 3 and not case.get("restored_mass"):
+        # the mass matrix is re-assigned through its parameter (what adaptors and restarts do) to a matrix that differs from the old
+        # one by a factor of a few, at a scale of 1e-9 (parameters measured in units of 1e4..1e5): the inverse has to follow
+        mm.tensor = M * 1e-9
+        _ = op.inverse_mass_matrix
+        M = M * 4.7e-9
+        mm.tensor = M.clone()
+        integ.step_size = eps * (4.7e-9 ** 0.5)  # the same trajectories in the rescaled units
+        C["reassigned_small_mass_matrices"] = C.get("reassigned_small_mass_matrices", 0) + 1
     if case["seed"] % 4 == 2 and not case.get("restored_mass"):
         # a mass-matrix adaptor rewrites the operator's mass matrix between moves: the inverse the integrator gets has to follow
         from torchtree.inference.hmc.adaptation import MassMatrixAdaptor
@@ -393,6 +409,70 @@ def run_hastings(case, dic, joint, params, pids, M, eps, L, V, C, detail):
                 break
     finally:
         integ.__class__.__call__ = orig_call
+
+
+def run_hastings32(case, rng, V, C):
+    import contextlib
+    import io
+
+    import torch
+    from torchtree import Parameter
+    from torchtree.inference.hmc.integrator import LeapfrogIntegrator
+    from torchtree.inference.hmc.operator import HMCOperator
+
+    d = case["d"]
+    old_dtype = torch.get_default_dtype()
+    torch.set_default_dtype(torch.float32)
+    try:
+        spec = [{"id": "q0", "type": "Parameter", "tensor": rng.normal(0, 1.0, d).tolist(), "dtype": "torch.float32"},
+                {"id": "d0", "type": "Distribution", "distribution": "torch.distributions.Normal", "x": "q0", "parameters": {"loc": 0.0, "scale": 1.0}},
+                # a factor of the posterior the operator does not touch (the likelihood of a large fixed data set): log density about -2e6
+                {"id": "dfix", "type": "Distribution", "distribution": "torch.distributions.Normal", "x": {"id": "ydata", "type": "Parameter", "tensor": [1500.0, 1400.0], "dtype": "torch.float32"},
+                 "parameters": {"loc": 0.0, "scale": 1.0}},
+                {"id": "joint", "type": "JointDistributionModel", "distributions": ["d0", "dfix"]}]
+        objs, dic = tt.load(spec)
+        params = [dic["q0"]]
+        integ = LeapfrogIntegrator("integ", case["L"], case["eps"])
+        op = HMCOperator("hmc", dic["joint"], params, integ, Parameter("mass", torch.ones(d, dtype=torch.float32)), disable_adaptation=True)
+        rec = {}
+        ham = op._hamiltonian
+        orig_sample = ham.sample_momentum
+
+        def sample(mass):
+            p = orig_sample(mass)
+            rec["p0"] = p.detach().clone()
+            return p
+
+        ham.sample_momentum = sample
+        orig_call = integ.__class__.__call__
+
+        def call(self_, model, parameters, momentum, inv):
+            out = orig_call(self_, model, parameters, momentum, inv)
+            rec["p1"] = out.detach().clone()
+            return out
+
+        integ.__class__.__call__ = call
+        try:
+            for it in range(4):
+                rec.pop("p1", None)
+                with torch.no_grad():
+                    lp = float(dic["joint"]())
+                with contextlib.redirect_stdout(io.StringIO()):
+                    hr = op.step()
+                C["hastings_terms"] += 1
+                C["single_precision_hastings_terms"] = C.get("single_precision_hastings_terms", 0) + 1
+                if "p1" in rec and bool(torch.isfinite(hr)):
+                    K = lambda p: float(0.5 * (p.double() @ p.double()))
+                    expect = K(rec["p0"]) - K(rec["p1"])
+                    if abs(float(hr) - expect) > 1e-4 * max(1.0, abs(expect), K(rec["p0"])):
+                        V.append(tt.viol("C16:hastings-term:single-precision", "float32, log density %.3g: HMCOperator.step() returned %.8g, the change in kinetic energy of the recorded momenta is %.8g" % (lp, float(hr), expect), case=case))
+                        break
+                op.reject()
+        finally:
+            integ.__class__.__call__ = orig_call
+    finally:
+        torch.set_default_dtype(old_dtype)
+    return {"violations": V, "counters": C, "fingerprint": "hastings32|%d" % case["seed"], "sample": None}
 
 
 def run_nan(case, rng, V, C):
